@@ -209,8 +209,43 @@ static void thread_histories(int count, int burst) {
     delete_gate_bootstrapping_ciphertext_array(2, in); delete_gate_bootstrapping_secret_keyset(sk); delete ps;
 }
 
+// objects released while the process exits: from an exit handler the application registered before it first touched the
+// library (so it runs after every handler registered later), and from the destructor of a global object (runs later still).
+// Deleting through the API is valid at any time; the objects' parameters are owned by the library (default sets, imports).
+struct ExitTime { TFheGateBootstrappingParameterSet *params = nullptr; TFheGateBootstrappingSecretKeySet *sk = nullptr; TFheGateBootstrappingCloudKeySet *imported = nullptr;
+                  LweSample *ct = nullptr; LweKey *imported_key = nullptr; bool armed = false; };
+static ExitTime exit_a, exit_b;
+static void release_exit_time(ExitTime &e, const char *when) {
+    if (!e.armed) return;
+    VH_OP("exit-time:%s:delete ciphertexts", when); if (e.ct) delete_gate_bootstrapping_ciphertext_array(3, e.ct);
+    VH_OP("exit-time:%s:delete imported cloud key set", when); if (e.imported) delete_gate_bootstrapping_cloud_keyset(e.imported);
+    VH_OP("exit-time:%s:delete imported LWE key", when); if (e.imported_key) delete_LweKey(e.imported_key);
+    VH_OP("exit-time:%s:delete secret key set", when); if (e.sk) delete_gate_bootstrapping_secret_keyset(e.sk);
+    VH_OP("exit-time:%s:delete parameters", when); if (e.params) delete_gate_bootstrapping_parameters(e.params);
+    VH_OP("exit-time:%s:done", when);
+    out.stat(J().s("kind", "exit-time").s("released_from", when));
+    e.armed = false;
+}
+static void early_registered_handler() { release_exit_time(exit_a, "exit-handler-registered-before-first-library-call"); }
+struct GlobalHolder { ~GlobalHolder() { release_exit_time(exit_b, "destructor-of-a-global-object"); } };
+static GlobalHolder global_holder;
+static void fill_exit_time(ExitTime &e, int lambda) {
+    e.params = new_default_gate_bootstrapping_parameters(lambda);                 // inner parameter objects owned by the library
+    e.sk = new_random_gate_bootstrapping_secret_keyset(e.params);
+    e.ct = new_gate_bootstrapping_ciphertext_array(3, e.params);
+    bootsSymEncrypt(e.ct, 1, e.sk); bootsSymEncrypt(e.ct + 1, 0, e.sk);
+    std::string bytes = to_stream_bytes([&](std::ostream &o) { export_tfheGateBootstrappingCloudKeySet_toStream(o, &e.sk->cloud); });
+    { std::istringstream is(bytes); e.imported = new_tfheGateBootstrappingCloudKeySet_fromStream(is); }      // parameters created by the importer
+    { std::string kb = to_stream_bytes([&](std::ostream &o) { export_lweKey_toStream(o, e.sk->lwe_key); }); std::istringstream is(kb); e.imported_key = new_lweKey_fromStream(is); }
+    bootsNAND(e.ct + 2, e.ct, e.ct + 1, e.imported);
+    out.evaluations++;
+    if (bootsSymDecrypt(e.ct + 2, e.sk) != 1) out.viol("memory:exit-time:wrong-gate-output", J().i("lambda", lambda));
+    e.armed = true;
+}
+
 int main(int argc, char **argv) {
     Args args(argc, argv);
+    if (args.s("mode", "") == "exit-time") atexit(early_registered_handler);      // before anything else happens
     out.open(args.s("out", "-"));
     install_crash_handler();
     uint64_t seed = args.i("seed", 1);
@@ -221,6 +256,11 @@ int main(int argc, char **argv) {
     else if (mode == "iokinds") iokinds_pass(args.i("reps", 4));
     else if (mode == "allocators") allocator_sweep(args.i("reps", 3));
     else if (mode == "threads") thread_histories(args.i("count", 50), args.i("burst", 10));
+    else if (mode == "exit-time") {
+        fill_exit_time(exit_a, 80); fill_exit_time(exit_b, 128);
+        out.cell("exit-time:released-from-early-registered-exit-handler"); out.cell("exit-time:released-from-global-destructor");
+        out.sample(J().s("mode", "exit-time").s("objects", "default parameter sets, secret key sets, imported cloud key set and LWE key, ciphertext arrays"));
+    }
     out.finish();
     // give the library the chance to release its garbage-collected parameters? no API is public for that: they stay reachable
     return 0;
